@@ -1,4 +1,4 @@
 INIT Init
 NEXT Next
-INVARIANTS NeverOK RetryableOnlyForTransient EchoFaultsAreFaults
+INVARIANTS NeverOK RetryableOnlyForTransient EchoFaultsAreFaults MapperLaws ProofListLaws
 CHECK_DEADLOCK FALSE
